@@ -2037,6 +2037,15 @@ def _has_stream_request_body(cls: type[RequestHandler]) -> bool:
     return cls._stream_request_body
 
 
+def _same_site_path(path: str) -> str:
+    # A Location starting with "//" is a protocol-relative URL (the next
+    # segment is a host name), and browsers treat "\\" like "/" there. Paths
+    # that come from the request line must never turn into one.
+    if len(path) > 1 and path[0] in "/\\" and path[1] in "/\\":
+        return "/" + path.lstrip("/\\")
+    return path
+
+
 def removeslash(
     method: Callable[..., Awaitable[None] | None],
 ) -> Callable[..., Awaitable[None] | None]:
@@ -2053,7 +2062,7 @@ def removeslash(
     ) -> Awaitable[None] | None:
         if self.request.path.endswith("/"):
             if self.request.method in ("GET", "HEAD"):
-                uri = self.request.path.rstrip("/")
+                uri = _same_site_path(self.request.path.rstrip("/"))
                 if uri:  # don't try to redirect '/' to ''
                     if self.request.query:
                         uri += "?" + self.request.query
@@ -2082,7 +2091,7 @@ def addslash(
     ) -> Awaitable[None] | None:
         if not self.request.path.endswith("/"):
             if self.request.method in ("GET", "HEAD"):
-                uri = self.request.path + "/"
+                uri = _same_site_path(self.request.path + "/")
                 if self.request.query:
                     uri += "?" + self.request.query
                 self.redirect(uri, permanent=True)
@@ -2998,7 +3007,7 @@ class StaticFileHandler(RequestHandler):
             # but there is some prefix to the path that was already
             # trimmed by the routing
             if not self.request.path.endswith("/"):
-                if self.request.path.startswith("//"):
+                if self.request.path.startswith(("//", "/\\")):
                     # A redirect with two initial slashes is a "protocol-relative" URL.
                     # This means the next path segment is treated as a hostname instead
                     # of a part of the path, making this effectively an open redirect.
